@@ -165,37 +165,79 @@ def special_inputs(pins):
     return sorted(set(b & 0xFFFFFFFF for b in base + near))
 
 
+def ref64(fn, x):
+    """The primary reference in Python: the function in f64, rounded once to f32 (sigmoid: the f32 formula)."""
+    r32 = lambda v: bits_f32(f32_bits(v))
+    try:
+        if fn == 0:
+            return r32(math.exp(x))
+        if fn == 1:
+            return r32(1.0 / r32(1.0 + r32(math.exp(-x))))
+        if fn == 2:
+            return r32(math.tanh(x))
+        if fn == 3:
+            return r32(math.erf(x))
+        return r32(math.sin(x) if fn == 4 else math.cos(x))
+    except (OverflowError, ValueError, struct_error):
+        return float("nan")
+
+
+struct_error = Exception
+
+
 def split_per_isa(case):
-    """A sweep line yields one case with the worst input of every ISA; split it so that each ISA is judged (and
-    classified) on its own."""
-    m = re.match(r"\((CUlp|CAbs) (\d+) (\d+) (\d+) \[(.*)\]\)$", case["term"])
-    if not m:
-        return [case]
+    """A sweep line yields `primary@@secondary`, each holding the worst input of every ISA.  Split so that every
+    (reference, ISA) pair is judged and classified on its own."""
     out = []
     isa_names = ["generic", "avx2", "avx512"]
-    for w in re.findall(r"\{\|.*?\|\}", m.group(5)):
-        isa = int(re.search(r"w_isa := (\d+)", w).group(1))
-        name = isa_names[isa] if isa < 3 else "isa%d" % isa
-        c = dict(case)
-        c["term"] = "(%s %s %s %s [%s])" % (m.group(1), m.group(2), m.group(3), m.group(4), w)
-        c["tag"] = "%s-%s" % (case["tag"].split("|")[0], name)
-        c["isa"], c["fn"] = name, int(m.group(2))
-        c["x"] = int(re.search(r"w_x := (\d+)", w).group(1))
-        c["a"] = int(re.search(r"w_actual := (\d+)", w).group(1))
-        c["e"] = int(re.search(r"w_expected := (\d+)", w).group(1))
-        c["input"] = case["input"] + " #" + name
-        out.append(c)
+    for which, term in zip(("f64ref", "std32"), case["term"].split("@@")):
+        m = re.match(r"\((CUlp|CAbs) (\d+) (\d+) (\d+) \[(.*)\]\)$", term)
+        if not m:
+            return [case]
+        for w in re.findall(r"\{\|.*?\|\}", m.group(5)):
+            isa = int(re.search(r"w_isa := (\d+)", w).group(1))
+            name = isa_names[isa] if isa < 3 else "isa%d" % isa
+            c = dict(case)
+            c["term"] = "(%s %s %s %s [%s])" % (m.group(1), m.group(2), m.group(3), m.group(4), w)
+            c["tag"] = "%s-%s-%s" % (case["tag"].split("|")[0], which, name)
+            c["isa"], c["fn"], c["ref"] = name, int(m.group(2)), which
+            c["bound"] = int(m.group(3)) / int(m.group(4))
+            c["x"] = int(re.search(r"w_x := (\d+)", w).group(1))
+            c["a"] = int(re.search(r"w_actual := (\d+)", w).group(1))
+            c["e"] = int(re.search(r"w_expected := (\d+)", w).group(1))
+            c["input"] = case["input"] + " #%s-%s" % (which, name)
+            out.append(c)
     return out
 
 
+def ulp_of(e):
+    b = f32_bits(e)
+    ex = (b >> 23) & 0xFF
+    return 2.0 ** -149 if ex == 0 else 2.0 ** (ex - 150)
+
+
 def classify(case):
-    # F54 (known): Sin / Cos on the generic ISA (no fused multiply-add): the two-step range reduction rounds
-    # k * two_pi_lo, so for |x| >= 512 the absolute error reaches about 6.3e-7, above the documented 3e-7 / 5e-7.
-    # Only this class is matched: sin or cos, generic ISA, 512 <= |x| < LARGE_THRESHOLD, error below 1e-6.
-    if case.get("isa") == "generic" and case.get("fn") in (4, 5):
-        x, a, e = bits_f32(case["x"]), bits_f32(case["a"]), bits_f32(case["e"])
-        if 512.0 <= abs(x) < 48000.0 and abs(a - e) < 1e-6:
+    if "fn" not in case:
+        return None
+    fn, isa = case["fn"], case["isa"]
+    x, a, e = bits_f32(case["x"]), bits_f32(case["a"]), bits_f32(case["e"])
+    if a != a or e != e or abs(a) == float("inf") or abs(e) == float("inf"):
+        return None
+    # F54 (known): Sin / Cos exceed the documented absolute bound for LARGE arguments.  Generic ISA (no fused
+    # multiply-add: k * two_pi_lo is rounded): from |x| ~ 5000, error < 1e-6.  FMA ISAs: a handful of inputs with
+    # |x| >= 32768, error < 4e-7 (sin only).  Matched for either reference; anything else is a violation.
+    if fn in (4, 5) and abs(x) < 48000.0:
+        if isa == "generic" and abs(x) >= 512.0 and abs(a - e) < 1e-6:
             return "F54"
+        if isa != "generic" and fn == 4 and abs(x) >= 32768.0 and abs(a - e) < 4e-7:
+            return "F54"
+    # F55 (known): against THIS PLATFORM's f32::tanh (glibc tanhf) the distance reaches 4 ULP near 0.473 although the
+    # distance to the correctly rounded value is <= 2 ULP there: the platform routine itself is off.  Matched only for
+    # the std32 reference, tanh, when the f64 reference at the same input IS within the documented bound.
+    if case.get("ref") == "std32" and fn == 2:
+        r = ref64(fn, x)
+        if r == r and abs(a - r) <= case["bound"] * ulp_of(r) and abs(a - e) <= 5 * ulp_of(e):
+            return "F55"
     return None
 
 
@@ -258,7 +300,12 @@ def main(ctx):
     for c in raw:
         if "|" in c["tag"]:
             parts = c["tag"].split("|")
-            summary[parts[0]] = {"worst_per_isa": parts[1], "preferred_isa_vs_f64_reference": parts[2]}
+            summary[parts[0]] = {"worst_vs_f64_reference_rounded": parts[1], "worst_vs_platform_f32_routines": parts[2]}
+        m = re.match(r"\(CSpecial (\d+) (\d+) (\d+) (\d+) (\d+) (\d+) (\d+) (\d+)\)$", c["term"])
+        if m:
+            g = [int(v) for v in m.groups()]
+            c.update({"fn": g[0], "isa": (["generic", "avx2", "avx512"] + ["?"] * 7)[g[1]], "ref": "f64ref",
+                      "bound": g[3] / g[4], "x": g[5], "a": g[6], "e": g[7]})
         cases += split_per_isa(c)
     ctx.extra["measured_max_distance"] = summary
     ctx.exhaustive = (not ctx.quick()) and not ctx.replay_path
